@@ -213,6 +213,7 @@ class C18(PropBase):
         "list/dict iterators) of pairs and non-pairs. Non-trivial: the input is a one-shot stream (empty, or failing after k "
         "elements), or follows a cleared strategy memo, or is consumed interleaved, or its class name was seen with another class "
         "before; distinct = distinct (operation digest, pre-state) pairs."
+        ' Mappings include a re-ordered OrderedDict, a defaultdict and a dict subclass presenting a filtered view; the model is what the mapping itself reports.'
     )
     ASSUMPTIONS = ["'iterable of pairs' is decided the way the library documents it: by the first element being a sized collection of length 2 (2-character strings included)",
                    "set inputs are compared with the iteration order of the same set object in the same process"]
